@@ -16,7 +16,8 @@ TreeOf(in, obs) ==
       hl |-> in.tree[i].hl,
       size |-> obs.attrs[i].size, mode |-> obs.attrs[i].mode, uid |-> obs.attrs[i].uid, gid |-> obs.attrs[i].gid,
       nlink |-> obs.attrs[i].nlink, ino |-> obs.attrs[i].ino, text |-> obs.attrs[i].text,
-      tm |-> [m |-> obs.attrs[i].mt, c |-> obs.attrs[i].ct]]]
+      tm |-> [m |-> obs.attrs[i].mt, c |-> obs.attrs[i].ct],
+      mnt |-> "mnt" \in DOMAIN in.tree[i] /\ in.tree[i].mnt]]
 
 RECURSIVE Norm(_)
 Norm(e) ==
@@ -32,7 +33,7 @@ WordsOf(in) == [i \in DOMAIN in.words |->
 RegexTextsOK(in) ==
   \A i \in DOMAIN in.words : in.words[i].k = "regex" => in.words[i].text = RX!Concrete(Norm(in.words[i].ast), in.cfg.syn)
 
-Measured(obs) == "panic" \notin DOMAIN obs /\ \A i \in DOMAIN obs.attrs : "missing" \notin DOMAIN obs.attrs[i]
+Measured(obs) == "panic" \notin DOMAIN obs /\ "nomount" \notin DOMAIN obs /\ \A i \in DOMAIN obs.attrs : "missing" \notin DOMAIN obs.attrs[i]
 InDomain(in, obs) ==
   /\ EmptyNames(in.roots) = {}
   /\ (Measured(obs) =>
@@ -52,8 +53,9 @@ Conforms(in, obs) ==
      /\ (r.errs > 0 /\ r.sure) => obs.diag
 
 Describe(in) == [words |-> Toks(in.words)]
-\* -nouser / -nogroup and -fls are described by FindSem but fixed by no listed property
+\* -nouser / -nogroup, -fls and -xdev are described by FindSem but fixed by no listed property
 Beyond(in) == \E i \in DOMAIN in.words : \/ in.words[i].k = "fls"
+                                         \/ (in.words[i].k = "gopt" /\ in.words[i].o = "xdev")
                                          \/ (in.words[i].k = "test" /\ in.words[i].q.p \in {"nouser", "nogroup"})
 INSTANCE TraceCheck
 =============================================================================
